@@ -19,7 +19,8 @@ def export(dst):
 
 def run_suite(tree):
     out = tempfile.mktemp(suffix=".xml")
-    env = dict(os.environ, PYTHONPATH=tree, NUMBA_CACHE_DIR=tempfile.mkdtemp(prefix="nbc-"), PYTHONDONTWRITEBYTECODE="1")
+    env = dict(os.environ, PYTHONPATH=tree, NUMBA_CACHE_DIR=tempfile.mkdtemp(prefix="nbc-"), PYTHONDONTWRITEBYTECODE="1",
+               TMPDIR=tempfile.mkdtemp(prefix="suite-tmp-"))     # the suite leaves ~35 MB of temp files behind per run
     cmd = ["/venv/bin/python", "-m", "pytest", "-q", "-p", "no:cacheprovider", "--timeout=900",
            "--continue-on-collection-errors", f"--junitxml={out}"]
     subprocess.run(cmd, cwd=tree, env=env, stdout=subprocess.DEVNULL, stderr=subprocess.DEVNULL)
@@ -27,7 +28,7 @@ def run_suite(tree):
     for tc in ET.parse(out).getroot().iter("testcase"):
         if not any(ch.tag in ("failure", "error", "skipped") for ch in tc):
             passed.add(f'{tc.get("classname")}::{tc.get("name")}')
-    os.remove(out); shutil.rmtree(env["NUMBA_CACHE_DIR"], ignore_errors=True)
+    os.remove(out); shutil.rmtree(env["NUMBA_CACHE_DIR"], ignore_errors=True); shutil.rmtree(env["TMPDIR"], ignore_errors=True)
     return sorted(set(BASE["stable_pass"]) - passed)
 
 def run_demo(tree, demo, pid):
